@@ -83,6 +83,12 @@ def named_forms():
         out.append(("half after digit", "half past {}".format(n), n, 30))
         out.append(("viertel vor digit", "viertel vor {}".format(n), n - 1, 45))
         out.append(("viertel nach digit", "viertel nach {}".format(n), n, 15))
+        # the hour of a spoken fraction followed by its clock word
+        out.append(("fraction digit o'clock", "quarter past {} o'clock".format(n), n, 15))
+        out.append(("fraction digit o'clock", "quarter to {} o'clock".format(n), n - 1, 45))
+        out.append(("fraction digit o'clock", "half past {} oclock".format(n), n, 30))
+        out.append(("fraction digit uhr", "viertel nach {} uhr".format(n), n, 15))
+        out.append(("fraction digit uhr", "halb {} uhr".format(n), n - 1, 30))
     return out
 
 
@@ -153,13 +159,15 @@ def pod_extra_forms():
     words_de = {1: "eins", 2: "zwei", 3: "drei", 4: "vier", 5: "fünf", 6: "sechs", 7: "sieben", 8: "acht", 9: "neun", 10: "zehn", 11: "elf", 12: "zwölf"}
     fr = [("quarter to", -1, 45), ("quarter past", 0, 15), ("half past", 0, 30), ("halb", -1, 30), ("viertel vor", -1, 45), ("viertel nach", 0, 15)]
     pods_en = [("in the morning", "morning"), ("in the afternoon", "afternoon"), ("in the evening", "evening"), ("at night", "night")]
-    pods_de = [("morgens", "morning"), ("nachmittags", "afternoon"), ("abends", "evening"), ("nachts", "night")]
+    pods_de = [("morgens", "morning"), ("vormittags", "forenoon"), ("nachmittags", "afternoon"), ("abends", "evening"), ("nachts", "night")]
     for h in range(1, 13):
         for f, dh, mi in fr:
             bh = h + dh if h + dh > 0 else 0
             en = f.isascii() and f != "halb"
             for hw in (str(h), words_en[h] if en else words_de[h]):
                 for ptxt, name in (pods_en if en else pods_de):
+                    if name == "forenoon" and not (6 <= bh <= 11):
+                        continue
                     if bh == 12 and name == "morning":
                         continue  # 'quarter past twelve in the morning': the 12 is the hour after midnight for a reader, the hour after noon for the code
                     exp = _pm_shift(bh, name)
